@@ -17,7 +17,7 @@ from pathlib import Path
 ROOT = Path(__file__).resolve().parent.parent
 REPO = Path(os.environ.get('AMISC_REPO', '/repo'))
 COQ = ROOT / 'coq'
-DRIVER = ROOT / 'ocaml' / '_build' / 'default' / 'gen' / 'driver.exe'
+DRIVER = Path(os.environ.get('VERIF_DRIVER') or (ROOT / 'ocaml' / '_build' / 'default' / 'gen' / 'driver.exe'))   # override: development only
 EVIDENCE = ROOT / 'evidence'
 WORK = ROOT / 'work'            # scratch (git-ignored): replays, temp files
 KNOWN = ROOT / 'known_findings.json'
